@@ -95,7 +95,7 @@ impl Prop for C16 {
         "exploration"
     }
     fn rule(&self, ctx: &Ctx) -> String {
-        format!("exhaustive: all lists of 1..={} elements over 66 elements (codings {{gzip, identity, *, br, deflate, x-gzip}} x weights {{none, 0, 0., 0.0, 0.000, 0.001, 0.5, 0.999, 1, 1., 1.000}}) x 4 whitespace layouts around ',' and ';'; absent / empty header; lists of 3 .. 5000 filler codings with the deciding element first, last or on both ends; all 1001 x 1001 pairs of qvalues in thousandths for (gzip, identity), (identity, gzip), (gzip, *), (*, identity), in padded and shortest spelling, and inside a four-element list; two- and three-element lists spread over 2 or 3 Accept-Encoding field lines (answer must equal what the first line alone or the comma-joined list gives); plus seeded random and mutated byte strings for the no-panic clause. Every list is a distinct case; non-trivial = grammatical and unambiguous under first/last/max/min-wins for repeated codings, compared with the RFC 7231 5.3.4 model (counted by the enumerator, which never repeats a list)", max_len(ctx))
+        format!("exhaustive: all lists of 1..={} elements over 66 elements (codings {{gzip, identity, *, br, deflate, x-gzip}} x weights {{none, 0, 0., 0.0, 0.000, 0.001, 0.5, 0.999, 1, 1., 1.000}}) x 4 whitespace layouts around ',' and ';'; absent / empty header; 16 coding names that merely resemble gzip / identity / * in ten list shapes; lists of 3 .. 5000 filler codings with the deciding element first, last or on both ends; all 1001 x 1001 pairs of qvalues in thousandths for (gzip, identity), (identity, gzip), (gzip, *), (*, identity), in padded and shortest spelling, and inside a four-element list; two- and three-element lists spread over 2 or 3 Accept-Encoding field lines (answer must equal what the first line alone or the comma-joined list gives); plus seeded random and mutated byte strings for the no-panic clause. Every list is a distinct case; non-trivial = grammatical and unambiguous under first/last/max/min-wins for repeated codings, compared with the RFC 7231 5.3.4 model (counted by the enumerator, which never repeats a list)", max_len(ctx))
     }
     fn n_blocks(&self, ctx: &Ctx) -> usize {
         66 * max_len(ctx) + 17 + 12 + 6
@@ -162,6 +162,24 @@ impl Prop for C16 {
                 ] {
                     run_value(v.as_bytes(), sink);
                     sink.count("long_list_values");
+                }
+            }
+            // coding names that merely resemble the three special ones
+            for near in ["identity2", "identityx", "identity-v2", "identit", "identityidentity", "gzipp", "gzi", "xgzip", "x-gzipx", "gzip2", "gzip-identity", "**", "*x", "x*", "identity*", "gzip*"] {
+                for v in [
+                    format!("gzip;q=0.5, {}", near),
+                    format!("gzip;q=0.5, identity, {};q=0.1", near),
+                    format!("gzip;q=0.5, identity;q=0.1, {}", near),
+                    format!("{};q=0, gzip", near),
+                    format!("{}, identity;q=0", near),
+                    format!("gzip;q=0, {}", near),
+                    format!("{};q=1, *;q=0", near),
+                    format!("{}", near),
+                    format!("identity;q=0.5, {};q=0.9", near),
+                    format!("{};q=0.9, *;q=0.1, identity;q=0.5", near),
+                ] {
+                    run_value(v.as_bytes(), sink);
+                    sink.count("near_name_values");
                 }
             }
             for v in [&b"GZIP"[..], b"gzip;Q=1", b"gzip;q=1.0000", b"gzip;q=0.1234", b"gzip;q=1.1", b"gzip;q=-1", b"gzip;q=", b"gzip;", b";q=1", b",", b"gzip,,identity", b"gzip;q=1;x=2", b"gzip q=1", b"gzip;q=0.5;q=1", b"identity=q=0, *"] {
